@@ -6,9 +6,11 @@
            object whose euid is 0.
    euid[o] changes only through o's own seteuid: to 0 always, to x iff the master approves.
    An object whose euid is 0 (other than the master) can never load or clone an object.
-   Where the documentation and the code differ (backbone-trusted creator: docs say "uid and euid
-   of the loader", the code uses the loader's euid for both) the property only requires that
-   the uid is decided by the creator_file policy, so both are accepted.                     *)
+   Backbone-trusted creator (creator_file answers the backbone uid): the new object gets the
+   loader's EFFECTIVE uid as uid and euid.  (docs/applies/master/creator_file.md says "the uid
+   and euid of the object that loaded it"; read as the loader's effective identity, which is
+   what the driver and MudOS do - otherwise an object that has lowered its euid could still
+   mint objects carrying its real uid, i.e. a uid that no policy decision gave them.)      *)
 EXTENDS Integers, FiniteSets, Sequences, TLC
 
 CONSTANTS Names,      \* object names that may appear
@@ -41,7 +43,7 @@ Create(by, new, creator) ==
   /\ \/ /\ creator = uid[by]                        \* same creator as the loader: its uid, euid 0
         /\ uid' = [uid EXCEPT ![new] = uid[by]] /\ euid' = [euid EXCEPT ![new] = Zero]
      \/ /\ creator = Backbone /\ creator # uid[by]  \* backbone-trusted: inherits from the loader
-        /\ \E u \in {uid[by], euid[by]} : uid' = [uid EXCEPT ![new] = u]
+        /\ uid' = [uid EXCEPT ![new] = euid[by]]
         /\ euid' = [euid EXCEPT ![new] = euid[by]]
      \/ /\ creator # Backbone /\ creator # uid[by]  \* somebody else's file: creator's uid, euid 0
         /\ uid' = [uid EXCEPT ![new] = creator] /\ euid' = [euid EXCEPT ![new] = Zero]
